@@ -392,6 +392,17 @@ def q_lam_where(P, i): return ids(select(p for p in P).where(LAMS[i]))
 def q_lam_exists(P, i): return P.exists(LAMS[i])
 def q_lamtext_select(P, i): return ids(P.select(LAMTEXTS[i]))
 def q_lamtext_filter(P, i): return ids(select(p for p in P).filter(LAMTEXTS[i]))
+# order_by with attribute / number arguments on ONE base query; the same generator code through select() and left_join()
+def q_order_attr(P, i):
+    arg = [P.a, P.id, desc(P.a), P.s, desc(P.id)][i]
+    return [p.id for p in base_all(P).order_by(arg, P.id) if True] if i != 1 and i != 4 else [p.id for p in base_all(P).order_by(arg)]
+def q_order_num(P, i):
+    return list(select((p.a, p.id) for p in P).order_by([1, 2, -1, -2][i], 2 if i in (0, 2) else 1))
+def _pairs(G): return ((g.id, p.id) for g in G for p in g.ps)
+def q_join(P, G, left):
+    from pony.orm import left_join as lj
+    gen = _pairs(G)
+    return srt((lj if left else select)(gen)[:])
 def q_rawq(P, x): return srt(select(p.id for p in P if raw_sql("p.a > $x"))[:])
 def q_rawexpr(P, x): return srt(select((p.id, raw_sql("p.a + $x")) for p in P)[:])
 def r_select(db, x): return srt(db.select("select id from P where a > $x"))
@@ -431,6 +442,7 @@ class Env(object):
 QUERIES = {f.__name__: f for f in [q_cmp, q_cmpb, q_ne, q_date, q_str, q_in, q_slice, q_slice1, q_slice2, q_getattr, q_obj, q_fcall, q_lambda, q_lambda_s,
                                   q_strq, q_strq2, q_strlambda, q_filter, q_filter_s, q_where_a, q_where_b, q_order_s, q_order_d, q_order_l,
                                   q_count, q_sum, q_min, q_max, q_avg, q_countd, q_exists, q_first, q_get, q_page, q_limit, q_distinct, q_nodistinct,
+                                  q_order_attr, q_order_num,
                                   q_lam_select, q_lam_filter, q_lam_where, q_lam_exists, q_lamtext_select, q_lamtext_filter,
                                   q_text_order_by, q_text_sort_by, q_text_filter, q_text_where, q_zf_order_by, q_zf_filter, q_zf_where,
                                   q_result_plain, q_result_reverse, q_result_sort,
@@ -463,6 +475,7 @@ def exec_step(env, st):
         elif name == 'q_subq': r = q_subq(P, G, *a)
         elif name == 'q_from': r = q_from(P, *a)
         elif name == 'q_prefetch_g': r = q_prefetch_g(P, G, *a)
+        elif name == 'q_join': r = q_join(P, G, *a)
         elif name in ('q_nested_stop', 'q_nested_start', 'q_nested_getattr'): r = globals()[name](P, G, *a)
         elif name == 'pk': r = P[a[0]].a
         elif name == 'lazy':
@@ -594,6 +607,7 @@ def gen_value(rng, kinds):
     if k == 'tuple': return ['@tuple'] + [rng.choice(INTS) for _ in range(rng.choice([0, 1, 2, 3]))]
     if k == 'list': return ['@list'] + [rng.choice(INTS) for _ in range(rng.choice([0, 1, 2, 3]))]
     if k == 'strtuple': return ['@tuple'] + [rng.choice(['a', 'b']) for _ in range(rng.choice([1, 2]))]
+    if k == 'five': return rng.randrange(5)
     if k == 'two': return rng.randrange(2)
     if k == 'txt': return rng.randrange(4)
     if k == 'zf': return rng.randrange(3)
@@ -625,6 +639,7 @@ QSPEC = [   # (step, argument kinds per position, weight)
     ('e_select_ab', [['int'], ['int', 'none']], 2),
     ('q_count_d', [['int'], ['tri']], 3), ('q_sum_d', [['int'], ['tri']], 1), ('q_avg_d', [['int'], ['tri']], 1), ('q_gc', [['int'], ['sep'], ['tri']], 1),
     ('q_count_ent_d', [['int'], ['tri']], 1), ('q_nested_slice', [['bound', 'none'], ['bound', 'none']], 2),
+    ('q_order_attr', [['five']], 2), ('q_order_num', [['txt']], 1),
     ('q_lam_select', [['zf']], 2), ('q_lam_filter', [['zf']], 2), ('q_lam_where', [['zf']], 1), ('q_lam_exists', [['zf']], 1),
     ('q_lamtext_select', [['two']], 1), ('q_lamtext_filter', [['two']], 1),
     ('q_text_order_by', [['txt']], 2), ('q_text_sort_by', [['txt']], 1), ('q_text_filter', [['txt']], 2), ('q_text_where', [['txt']], 2),
@@ -809,7 +824,7 @@ def random_histories(ctx):
     flush_protocol(ctx)
 
 
-POOL = {'two': [0, 1], 'txt': [0, 1, 2, 3], 'zf': [0, 1, 2], 'lim': [1, 2, 3], 'tri': [None, False, True], 'sep': [None, ',', '|'], 'cond': [0, 1, 2, 3, 4, 5], 'bound': [1, 2, 3, -1, -2], 'int': [1, 3, -1], 'none': [None], 'str': ['ab', 'b%'], 'date': [['@date', 2020, 1, 1], ['@date', 2021, 1, 1]], 'bool': [True], 'float': [1.5],
+POOL = {'five': [0, 1, 2, 3, 4], 'two': [0, 1], 'txt': [0, 1, 2, 3], 'zf': [0, 1, 2], 'lim': [1, 2, 3], 'tri': [None, False, True], 'sep': [None, ',', '|'], 'cond': [0, 1, 2, 3, 4, 5], 'bound': [1, 2, 3, -1, -2], 'int': [1, 3, -1], 'none': [None], 'str': ['ab', 'b%'], 'date': [['@date', 2020, 1, 1], ['@date', 2021, 1, 1]], 'bool': [True], 'float': [1.5],
         'tuple': [['@tuple'], ['@tuple', 1], ['@tuple', 1, 3]], 'list': [['@list', 1], ['@list', 0, 3]], 'strtuple': [['@tuple', 'a']],
         'obj': [['@obj', 'G', 1], ['@obj', 'G', 2]], 'pobj': [['@obj', 'P', 1]]}
 SPECIALS = [
@@ -824,6 +839,8 @@ SPECIALS = [
     [['q_derived', 1, 3], ['q_base', 1], ['q_base_count', 1], ['q_base_limit', 1, 2], ['q_base_sum', 1], ['q_derived_plain', 1], ['q_derived_limit', 1, 2, 5], ['q_derived_nested', 1, 5],
      ['q_derived_filter', 1, 3], ['q_derived', 0, 2]],
     [['q_text_order_by', 0], ['q_text_filter', 0], ['q_text_where', 0], ['q_text_sort_by', 0], ['q_text_order_by', 1], ['q_text_filter', 1], ['q_text_where', 1]],
+    [['q_join', False], ['q_join', True]],
+    [['q_order_attr', 0], ['q_order_attr', 2], ['q_order_attr', 3], ['q_order_attr', 1], ['q_order_attr', 4]],
     [['q_lam_select', 0], ['q_lam_filter', 0], ['q_lam_where', 0], ['q_lam_exists', 0], ['q_lam_select', 1], ['q_lam_filter', 1]],
     [['q_lamtext_select', 0], ['q_lamtext_filter', 0], ['q_lamtext_select', 1], ['q_lamtext_filter', 1]],
     [['q_zf_order_by', 0], ['q_zf_filter', 0], ['q_zf_where', 0], ['q_zf_order_by', 1], ['q_zf_filter', 1], ['q_zf_where', 1]],
